@@ -86,7 +86,14 @@ def extends_and_mixins(doc, rnd):
     n = _fresh(doc, "EvolvedDerived")
     doc["structures"].append({"name": n, "properties": [{"name": "own", "type": B("boolean"), "optional": True}],
                               "extends": [R(base)], "mixins": [R("StaticRegistrationOptions")]})
-    return f"structure {n} extending {base} (which has a mixin) and mixing in StaticRegistrationOptions"
+    # a mixin target that itself has bases: mixins-of-mixins and extends-under-a-mixin must be flattened transitively
+    m1 = _fresh(doc, "EvolvedMixinMid")
+    doc["structures"].append({"name": m1, "properties": [{"name": "midProp", "type": B("integer"), "optional": True}],
+                              "mixins": [R("WorkDoneProgressOptions")], "extends": [R("TextDocumentRegistrationOptions")]})
+    m2 = _fresh(doc, "EvolvedMixinUser")
+    doc["structures"].append({"name": m2, "properties": [{"name": "label", "type": B("string")}], "mixins": [R(m1), R("RenameOptions")]})
+    return (f"structure {n} extending {base} (which has a mixin) and mixing in StaticRegistrationOptions; "
+            f"structure {m2} mixing in {m1} (which itself has a mixin and a base) and RenameOptions (which has a mixin)")
 
 
 def closed_enum(doc, rnd):
@@ -154,8 +161,20 @@ def remove_probed_optional(doc, rnd):
     return "optional property StaticRegistrationOptions.id (probed by the provider hooks) removed"
 
 
+def reorder_properties(doc, rnd):
+    """The `properties` arrays of a few structures listed in another order (no wire change: JSON objects are unordered).
+    Position / Range / Location are among them: their hand-written comparison and repr must not depend on declaration order."""
+    names = ["Position", "Range", "Location", "TextEdit", "Diagnostic", "WorkspaceFolder"]
+    done = []
+    for s in doc["structures"]:
+        if s["name"] in names and len(s["properties"]) > 1:
+            s["properties"] = list(reversed(s["properties"]))
+            done.append(s["name"])
+    return "properties of " + ", ".join(done) + " listed in reverse order"
+
+
 EDITS = [new_structure, keyword_properties, new_properties, literal_property, extends_and_mixins, closed_enum, enum_value,
-         request_with_typename, request_without_typename, marks, remove_optional, remove_probed_optional]
+         request_with_typename, request_without_typename, marks, remove_optional, remove_probed_optional, reorder_properties]
 
 
 def corpus(doc):
